@@ -319,6 +319,9 @@ func (w *World) finishBeginSpec(e *Env, h int64, cp CurParams) *BeginSpec {
 	}
 	if w.R.Chance(w.P.UnknownPropPct) {
 		b.Proposer = hx(w.R.Bytes(24)[:20])
+		if w.R.Chance(30) {
+			b.Proposer = "" // a header without a proposer address
+		}
 	}
 	if h >= 2 {
 		if lv := e.Chain.Vals[h-1]; lv != nil {
